@@ -324,8 +324,10 @@ static void run_to_znx64(Out& out, Rng& rng, int thorough) {
   std::vector<int> js;
   for (int j = -8; j <= 8; j++) js.push_back(j);
   if (thorough) { js.push_back(-200); js.push_back(-64); js.push_back(33); js.push_back(64); js.push_back(200); }
-  const bool libfixed = lib_bnd63_is_fixed();
-  out.count(libfixed ? "lib_bnd63_fixed" : "lib_bnd63_old");
+  // the library kernel is always compared with the model of the REPAIRED kernel (D7): a regression of the repair is a
+  // model/implementation disagreement, not only an oracle failure
+  const bool libfixed = true;
+  out.count(lib_bnd63_is_fixed() ? "lib_bnd63_fixed" : "lib_bnd63_old");
   // vi 5 = standalone repaired kernel.  The library's own kernel is named after what it is.
   const char* variants[] = {"ref", "bnd50", libfixed ? "bnd63" : "bnd63old", "api0", libfixed ? "api1" : "api1old", "bnd63"};
   for (int vi = 0; vi < 6; vi++)
